@@ -352,6 +352,7 @@ def _chain_violations(sent, client_filter, who, mode):
     """Successor chain per kind and per connection (= source address) over a list of (t, src, data)."""
     viol = []
     last = {}
+    last_data = {}
     n = 0
     for (tm, src, data) in sent:
         if not client_filter(src):
@@ -369,6 +370,8 @@ def _chain_violations(sent, client_filter, who, mode):
                          {"mode": mode}))
         elif src in last.get(lo, {}):
             prev = last[lo][src]
+            if data == last_data.get((lo, src)):
+                continue  # a retransmission of the very same datagram (the blocking client re-sends the request object)
             if seq != (prev + 1 if prev < hi else lo):
                 viol.append((f"C16|wire|{who}|successor|{'command' if lo == 192 else 'protocol'}",
                              f"{who} client sent {verb.decode()} with sequence {seq} after {prev} in the {lo}..{hi} cycle of that "
@@ -378,6 +381,7 @@ def _chain_violations(sent, client_filter, who, mode):
                          f"{who} client: the first {lo}..{hi} number of a connection is {seq} ({verb.decode()}), a new connection "
                          f"counts from {lo}", {"mode": mode}))
         last.setdefault(lo, {})[src] = seq
+        last_data[(lo, src)] = data
     return n, viol
 
 
@@ -451,6 +455,22 @@ def _wire_threaded_run():
         rig.run_for(1.0)
         rig.inject(frame(SPA_ID, b"IOSgeckomc-0001", b"STATP\x01\x01\x2c\x00" + bytes([i + 100])))
         rig.run_for(0.4)
+    # an outage: pings go unanswered for longer than the not-responding time-out, then the spa answers again - the
+    # connection (and its numbering) goes on
+    for i in range(2):
+        rig.ping()
+        rig.run_for(60.0)
+    rig.world.net.fates = lambda src, dst, data: ["drop"]  # (both engines are stepped sockets: the outage is on the wire)
+    for i in range(4):
+        rig.ping()
+        rig.run_for(60.0)
+    rig.world.net.fates = None
+    for i in range(3):
+        rig.ping()
+        rig.run_for(20.0)
+        with stepped.patched_clock(rig.world.clock):
+            rig.spa.press(1)
+        rig.run_for(2.0)
     n, viol = _chain_violations([(t, "client", d) for (t, d, dest) in rig.client_sent], lambda src: True, "threaded", "wire-threaded-run")
     return n, viol
 
